@@ -66,11 +66,12 @@ def covers(rule, ev, vars_):
         if k not in ('mount', 'remount'):
             return False
         mp = f[3] if k == 'mount' else f[2]
-        return f[0] == m['fstype'] and bool(aare.matches(mp, m['name'], vars_)) and (k != 'mount' or f[2] == m['srcname'])
+        return f[0] == m['fstype'] and bool(aare.matches(mp, m['name'], vars_)) and (k != 'mount' or f[2] == m['srcname'] or bool(aare.matches(f[2], m['srcname'], vars_)))
     # file classes
     mask = m.get('requested_mask', '')
     if mask == 'l':
-        return k == 'link' and bool(aare.matches(f[2], m['name'], vars_)) and (not f[0] or m.get('fsuid') == m.get('ouid'))
+        return k == 'link' and bool(aare.matches(f[2], m['name'], vars_)) and (not f[0] or m.get('fsuid') == m.get('ouid')) and \
+            ('target' not in m or bool(aare.matches(f[3], m['target'], vars_)))
     if k != 'file':
         return False
     if not aare.matches(f[1], m['name'], vars_):
@@ -171,7 +172,7 @@ def run(ctx):
             if not any(r is not None and covers(r, e, vars_) for r in cands):
                 if m.get('name', '').startswith('/att/') and ctx.known_finding('K_attPrefix'):
                     continue
-                if any(ch in m.get('name', '') for ch in '\\*?[]{}') and ctx.known_finding('K_globMetaInName'):
+                if any(ch in m.get('name', '') + m.get('target', '') + m.get('srcname', '') for ch in '\\*?[]{}') and ctx.known_finding('K_globMetaInName'):
                     continue
                 nfail += 1
                 if nfail <= 3:
